@@ -51,7 +51,24 @@ def run_case(case):
     dims["maxdata"] = rng.choice([4096, 4096, 4097, 8192, 65536])
     stats = {"push_fails": 0, "pull_fails": 0, "wrong_records": 0, "fail_before_later_okay": 0, "fail_held_to_the_end": 0, "max_host_wrtes": 0, "max_virtual_s": 0.0}
     viol = []
-    sess = gen.make_session(case["impl"], dims, case["seed"])
+    kw = {}
+    slow_send = case["kind"] == "push" and rng.random() < 0.2
+    if slow_send:
+        # a congested link: every sync WRTE payload needs three partial writes of 4 s each (12 s for the message although no single wait
+        # exceeds the 10 s limits); the failure the device reports meanwhile must still surface as PushFailedError
+        state = {"left": 0, "cap": 0}
+
+        def writecap(call_no, length, r_):
+            if length <= 64:
+                return length
+            if state["left"] != length:          # a new message (the library re-offers exactly what is left of the old one)
+                state["left"], state["cap"] = length, -(-length // 3)
+            n_ = min(length, state["cap"])
+            state["left"] -= n_
+            return n_
+        kw["writecap"] = writecap
+        kw["write_cost"] = lambda n_: 4.0 if n_ > 64 else 0.0
+    sess = gen.make_session(case["impl"], dims, case["seed"], **kw)
     try:
         plan = sess.sim.sync_plan
         t0 = sess.clock.now()
@@ -66,6 +83,9 @@ def run_case(case):
             point = rng.choice(["send", "done"] + ([("data", rng.randint(1, max(1, nchunks)))] if nchunks else []))
             plan.send_fail[b"/fail"] = (point, reason)
             plan.hold_fail = rng.random() < 0.3
+            if slow_send:
+                plan.early_reply = True        # the FAIL may overtake the OKAY of the WRTE that provoked it
+                stats["slow_sends"] = 1
             n0 = len(sess.sim.all_streams)
             out = sess.call("push", io.BytesIO(scen.blob(case["seed"], size)), "/fail", mtime=5)
             stats["push_fails"] += 1
@@ -152,7 +172,7 @@ def run_case(case):
             sig = "wrong|%s|%s|%s" % (case["impl"], "pull" if w % 2 == 0 else "push", wire.SYNC_NAMES[id_])
         dt = sess.clock.now() - t0
         stats["max_virtual_s"] = round(dt, 6)
-        if dt > 1.0 and not viol:
+        if dt > 1.0 and not viol and not slow_send:
             viol.append({"mechanism": "slow-failure", "detail": "%s: %.2f virtual seconds passed before the failure surfaced (timeouts are 10 s)" % (where, dt)})
         sample = {"case": case, "where": where, "outcome": out.brief(100)} if case["seed"][-1] == "3" and case["seed"][-2] in "pwl" else None
         return {"sig": sig, "violations": viol[:3], "stats": stats, "sample": sample}
